@@ -734,7 +734,7 @@ def configs(ctx: core.Ctx) -> list[tuple[Model, int]]:
             (Model("selfpop", selfpop, s), 10),
             (Model("retry", retry, s), 7),
             (Model("popretry", popretry, s), 7),
-            (Model("waiter", waiter, s, waits=(None, 1.0)), 9),
+            (Model("waiter", waiter, s, waits=(None, 1.0)), 7),
             (Model("waiter-twins", waiter2, s, io_pop=False, waits=(None,)), 7),
         ]
     return [
